@@ -17,6 +17,6 @@ ENGINES = [
 ]
 TRUST = "Trusted: TLC evaluator, Json/IOUtils community modules, harness projection functions (shared by both binding directions), go -overlay."
 # checks that are finished, reviewed and registered (others are work in progress)
-ENABLED = ["C01", "C02", "C03", "C04", "C05", "C06", "C07", "C08", "C09", "C10", "C11", "C12", "C13", "C14", "C15", "C17", "C18", "C19", "C20"]
+ENABLED = ["C01", "C02", "C03", "C04", "C05", "C06", "C07", "C08", "C09", "C10", "C11", "C12", "C13", "C14", "C15", "C16", "C17", "C18", "C19", "C20"]
 CHECKS = {}   # filled from the MANIFEST dict of each bin/checks/cNN.py
 NOT_APPLICABLE = {}
